@@ -119,7 +119,9 @@ class Gen:
                 n = r.choice([1, 2, 3])
                 arms = [(False, self.block(depth + 1, loops, True)) for _ in range(n)]
                 if r.random() < 0.6:
-                    arms.append((True, self.block(depth + 1, loops, True)))
+                    # the `_` arm stands last or (a third of the time) before value arms: those are still dispatched to by value
+                    # (seed C05e: arms written after `_` were not analysed)
+                    arms.insert(len(arms) if r.random() < 0.65 else r.randrange(len(arms)), (True, self.block(depth + 1, loops, True)))
                 return ('match', self.bit(2), arms)
             if k < 0.93: return self.loop(depth, loops, True)
             return ('block', self.block(depth + 1, loops, True))
@@ -129,7 +131,7 @@ class Gen:
             n = r.choice([1, 2, 3])
             arms = [(False, self.block(depth + 1, loops, r.random() < 0.5)) for _ in range(n)]
             if r.random() < 0.5:
-                arms.append((True, self.block(depth + 1, loops, False)))
+                arms.insert(len(arms) if r.random() < 0.65 else r.randrange(len(arms)), (True, self.block(depth + 1, loops, False)))
             return ('match', self.bit(2), arms)
         if k < 0.93: return self.loop(depth, loops, False)
         return ('block', self.block(depth + 1, loops, False))
@@ -518,11 +520,14 @@ def interp(body, a, cap=2000):
             return None
         if k == 'match':
             v = (a // (1 << s[1])) % 4
+            # value arms are dispatched by value wherever the `_` arm stands (lowerMatch compares every value arm first)
             i = 0
             for d, b in s[2]:
-                if d: return blk(b)
+                if d: continue
                 if v == i: return blk(b)
                 i += 1
+            for d, b in s[2]:
+                if d: return blk(b)
             return None
         if k == 'block': return blk(s[1])
         raise ValueError(k)
@@ -766,7 +771,7 @@ def main(run):
     run.trusted += ["harness/c05.py: generator, Ferret/Coq renderers of the same AST, reading of the diagnostics text, "
                     "reference interpreter used as execution oracle",
                     "hooks/batch (in-process compiler.Compile driver), native toolchain + runtime for executions"]
-    run.extra["gates"] = ["match default arm only in last position (arm order semantics not modelled)",
+    run.extra["gates"] = [
                           "while conditions other than `true` always decrement their counter (the 'variable never "
                           "modified / wrong direction' loop diagnostics are not modelled)"]
 
